@@ -669,7 +669,12 @@ func RunWMPT(w *tr.Writer, in *tr.Interner, st *WStats, tid int, h WHist) {
 			ev["above"] = e0 != nil
 			r.emit(ev)
 		case "saveroot":
-			ev["res"] = Guard(func() string { r.t.SaveRoot(); return "ok" })
+			ev["res"] = Guard(func() string {
+				if op.Level != 1 { // level 1: the caller keeps (root, weight) itself and does not tell the trie
+					r.t.SaveRoot()
+				}
+				return "ok"
+			})
 			ckRoot, ckWeight = append([]byte(nil), r.t.Root()...), r.t.Weight()
 			ev["root"], ev["weight"] = in.ID(ckRoot), r.sw(ckWeight)
 			r.emit(ev)
@@ -960,7 +965,12 @@ func GenWMPTRollback(r *rand.Rand, mode string) WHist {
 	if r.Intn(2) == 0 {
 		h.Ops = append(h.Ops, WOp{Op: "gc"})
 	}
-	h.Ops = append(h.Ops, WOp{Op: "saveroot"})
+	marked := r.Intn(3) == 0 // the checkpoint is kept by the caller only (RollbackTrie)
+	if marked {
+		h.Ops = append(h.Ops, WOp{Op: "saveroot", Level: 1})
+	} else {
+		h.Ops = append(h.Ops, WOp{Op: "saveroot"})
+	}
 	// batch of subsequent changes; a third of the histories read the root hash or the proofs while the batch is uncommitted
 	// (mid-batch or at its end): that caches hashes of states that are never stored
 	observe := r.Intn(3) == 0
@@ -1001,7 +1011,7 @@ func GenWMPTRollback(r *rand.Rand, mode string) WHist {
 	if r.Intn(2) == 0 {
 		h.Ops = append(h.Ops, WOp{Op: "gc"})
 	}
-	if r.Intn(2) == 0 {
+	if r.Intn(2) == 0 && !marked {
 		h.Ops = append(h.Ops, WOp{Op: "rollback"})
 	} else {
 		h.Ops = append(h.Ops, WOp{Op: "rollbacktrie"})
